@@ -63,6 +63,7 @@ func runC13(rc *RC) {
 	steps := rc.Range(3, 24)
 	mix := opMix{invalidPct: 35, richTypes: true}
 	rejections := 0
+	var queue []op
 	snapshotAt := -1
 	if kind == wkOverlayWithSnapshot {
 		snapshotAt = rc.Draw(steps)
@@ -77,11 +78,20 @@ func runC13(rc *RC) {
 			rc.Notef("#%d Snapshot()", i)
 			continue
 		}
-		if rc.Pct(22) {
+		if len(queue) == 0 && rc.Pct(5) {
+			queue = g.twinRingOps(rc.Pct(30))
+		}
+		if len(queue) == 0 && rc.Pct(22) {
 			c13Merged(rc, g, w, twin, ids, name, i, &rejections)
 			continue
 		}
 		o := g.genOp(mix)
+		if len(queue) > 0 {
+			// a ring closed by a second point at its first vertex's position,
+			// with an area on it: later moves of those points are judged by
+			// the area's validation only
+			o, queue = queue[0], queue[1:]
+		}
 		rc.Case(o.String())
 		if o.Invalid != "" {
 			rc.Configured("reject")
